@@ -544,6 +544,10 @@ func shouldRunOnCurrentPlatform(platforms []*ast.Platform) bool {
 		return true
 	}
 	for _, p := range platforms {
+		// a null entry in the YAML list (`platforms: [~]`) decodes to a nil pointer
+		if p == nil {
+			continue
+		}
 		if (p.OS == "" || p.OS == runtime.GOOS) && (p.Arch == "" || p.Arch == runtime.GOARCH) {
 			return true
 		}
